@@ -56,9 +56,6 @@ const (
 	// a degree-0 *Ciphertext (accepted by the sk encryptor) makes encryptZeroPk(NoP) index ct.Value[1]:
 	// panic where the doc promises an error. Low severity; turn into "rejected" here if not admitted.
 	sigDeg0Pk = "C03/Encryptor[pk].EncryptZero/degree-0-target/panic-instead-of-error"
-	// rlwe consequence of the C17 defect (TernarySampler.AtLevel keeps `sample` bound to the full-level
-	// sampler): xeSampler.AtLevel(l).ReadAndAdd(c0) on a polynomial with l+1 < max rows panics.
-	sigTernaryXe = "C03/Encryptor.EncryptZero/Xe=Ternary,level<max,non-NTT-target/panic(TernarySampler.AtLevel)"
 )
 
 type encCfg struct {
@@ -90,11 +87,6 @@ func (cf encCfg) String() string {
 // knownClass returns the finding signature of the leaf's input class ("" for ordinary leaves).
 func (cf encCfg) knownClass() string {
 	p := cf.params
-	// the error is added with xeSampler.AtLevel(level).ReadAndAdd(c0) on a polynomial of `level`+1 rows
-	// in the non-NTT branches of encryptZeroSkFromC1 and encryptZeroPkNoP
-	if isTernary(p.Xe()) && cf.level < p.MaxLevel() && !cf.isNTT && (!cf.pk || p.PCount() == 0) && !(cf.pk && cf.degree == 0) {
-		return sigTernaryXe
-	}
 	switch {
 	case cf.pk && cf.degree == 0:
 		return sigDeg0Pk
@@ -149,12 +141,19 @@ func encScenario(rt ring.Type, logN int, ch rk.Chain, np, bound int) engine.Scen
 		} else {
 			cf.pat = 1 // zero
 		}
-		if cf.entry == entEncrypt && cf.level < L {
+		if cf.entry == entEncrypt && L > 0 {
+			// ciphertext and plaintext at different levels, both directions: Encrypt works at the
+			// minimum and must bring the receiver down to it. With the level axis at its default (L)
+			// the lower operand sits at L−1.
+			lo := cf.level
+			if lo == L {
+				lo = L - 1
+			}
 			switch c.Choose(3, "levels") {
-			case 1:
-				cf.ctLevel = L // ciphertext above the plaintext: Encrypt must truncate it
-			case 2:
-				cf.ptLevel = L // plaintext above the ciphertext
+			case 1: // ciphertext above the plaintext
+				cf.ctLevel, cf.ptLevel, cf.level = L, lo, lo
+			case 2: // plaintext above the ciphertext
+				cf.ctLevel, cf.ptLevel, cf.level = lo, L, lo
 			}
 		}
 		cf.dec = c.Choose(3, "dec")
@@ -206,7 +205,7 @@ func knownEncScenario(rt ring.Type, logN int, ch rk.Chain, np int) engine.Scenar
 				pk := pk
 				for _, ent := range []int{entEncryptZero, entEncryptZeroNew, entEncrypt} {
 					ent := ent
-					add(func(cf *encCfg) { // ternary Xe, below the maximum level, outside the NTT domain
+					add(func(cf *encCfg) { // ternary Xe, below the maximum level, outside the NTT domain (fixed in /repo 8ff3362: control)
 						cf.params, cf.xeI, cf.entry, cf.pk, cf.isNTT = ter, 2, ent, pk, false
 						cf.level, cf.ctLevel, cf.ptLevel = L-1, L-1, L-1
 					})
